@@ -24,6 +24,7 @@ type ncSession struct {
 
 type ncConfig struct {
 	trace        bool // record the pipe's deliver / recv events
+	onlcr        bool // the transport delivers CR LF for every LF of the server (a pty in front of ssh does)
 	adv10, adv11 bool
 	preferred    string
 	echo         bool
@@ -58,6 +59,7 @@ func newNcSession(c ncConfig) (*ncSession, error) {
 	pipe.Seg = c.seg
 	pipe.MsgBounds = true // one read never carries bytes of two server messages
 	pipe.RecordTrace = c.trace
+	pipe.OnlCR = c.onlcr
 	pipe.ReadDelay = c.devDelay
 
 	if c.timeout == 0 {
